@@ -34,7 +34,8 @@ Ignorables == {"gtid", "anongtid", "prevgtids", "heartbeat", "unknown", "unknown
 
 UnitDescs ==
   {[u |-> k, body |-> b] : k \in {"txxid", "txcommit", "txrollback"}, b \in Bodies} \cup
-  {[u |-> "ddl", body |-> <<>>], [u |-> "stmtdml", body |-> <<>>], [u |-> "rotate", body |-> <<>>]} \cup
+  {[u |-> "ddl", body |-> <<>>], [u |-> "stmtdml", body |-> <<>>], [u |-> "rotate", body |-> <<>>],
+   [u |-> "xidalone", body |-> <<>>], [u |-> "commitalone", body |-> <<>>]} \cup
   {[u |-> "autorow", body |-> <<s>>] : s \in {x \in Stmts : x[1] \in {"write", "update", "delete"}}} \cup
   {[u |-> "ign", body |-> <<<<i, None>>>>] : i \in Ignorables} \cup
   (IF WithInvalid THEN {[u |-> "invalid", body |-> <<>>]} ELSE {})
@@ -43,6 +44,8 @@ UnitEvents(d) ==
   CASE d.u = "txxid"      -> <<E("query", "begin", None)>> \o BodyEvents(d.body) \o <<E("xid", "none", None)>>
     [] d.u = "txcommit"   -> <<E("query", "begin", None)>> \o BodyEvents(d.body) \o <<E("query", "commit", None)>>
     [] d.u = "txrollback" -> <<E("query", "begin", None)>> \o BodyEvents(d.body) \o <<E("query", "rollback", None)>>
+    [] d.u = "xidalone"   -> <<E("xid", "none", None)>>
+    [] d.u = "commitalone" -> <<E("query", "commit", None)>>
     [] d.u = "ddl"        -> <<E("query", "ddl", None)>>
     [] d.u = "stmtdml"    -> <<E("query", "dml", None)>>
     [] d.u = "autorow"    -> StmtEvents(d.body[1])
